@@ -108,7 +108,7 @@ theorem buildAllDeps_vtype (n v : Bytes) (t t' : VType) (reqs : NpmReqs) (k : By
         simp only [Option.map_some, lookup_eraseRoot, hk, if_false]
         cases List.lookup k all <;> rfl
     unfold buildAllDeps
-    rw [← lk, ← lk (processBundles ⟨n, .concrete, v⟩ _ _)]
+    rw [hstep, ← lk, ← lk (processBundles ⟨n, .concrete, v⟩ _ _)]
     exact congrArg _ h3
   rw [key t, key t']
 
